@@ -28,6 +28,7 @@ type certSlots struct {
 	OCSP     []string // per URL: "ok" | "badurl" | "scheme"
 	NCRL     int
 	Freshest bool
+	CRLKinds []string // per distribution point: "" / "ok" = http URL, "ldap" | "https" | "ftp" = that scheme
 }
 
 type revChain struct {
@@ -51,7 +52,11 @@ func buildRevChain(purp string, slots []certSlots, noCRLSign map[int]bool, bigSe
 			p.certs[i].spec.OCSP = append(p.certs[i].spec.OCSP, ocspURL(i, k, kind))
 		}
 		for k := 0; k < slots[i].NCRL; k++ {
-			p.certs[i].spec.CRL = append(p.certs[i].spec.CRL, crlURL(i, k))
+			u := crlURL(i, k)
+			if k < len(slots[i].CRLKinds) && slots[i].CRLKinds[k] != "" && slots[i].CRLKinds[k] != "ok" {
+				u = fmt.Sprintf("%s://crl.test/c%d/p%d.crl", slots[i].CRLKinds[k], i, k)
+			}
+			p.certs[i].spec.CRL = append(p.certs[i].spec.CRL, u)
 		}
 		p.certs[i].spec.Freshest = slots[i].Freshest
 		if bigSerial[i] {
